@@ -165,6 +165,8 @@ def gen_ops(g, d, kinds, n, big):
             if '__root__' not in d['cmds']:
                 d['cmds']['__root__'] = {'content': {'seed': 1, 'size': g.pick([0, 24]), 'alpha': 'ascii'}, 'cuts': None}
             op = {'op': 'root'}
+        elif k == 'reboot':
+            op = {'op': 'reboot', 'fastboot': g.chance(0.3)}
         elif k == 'list':
             p = add_dir(g, d) if (not d['dirs'] or g.chance(0.7)) else g.pick(sorted(d['dirs']))
             total += sum(20 + len(e[0]) // 2 for e in d['dirs'][p])
